@@ -77,6 +77,14 @@ CHECKS.update({
    text="Exploration of interleavings. Producer thread (real Reader fed with DATA) against a consumer thread that follows the documented pattern through the async stream, mio-0.6 or mio-0.8, with modelled parking; and an async task writing against the full 16-slot command queue while another thread runs the Writer's command loop. At quiescence a parked consumer/task that got no wake-up although a sample is available (or its future would complete) is a lost wake-up; delivered set must equal produced set.",
    note="Granularity = the 12 yield sites (hook H5), not instructions: interleavings inside mio, the kernel socketpair or a single lock scope are not explored; the status-event channels are not scheduled. async_wait_for_acknowledgments' completion signal is covered by C20's executor-discipline leg.", ref="3/C13"),
 })
+CHECKS.update({
+ "C07": dict(engine="E-STACK/real-participants", technique="runtime monitoring of full-stack executions: two to four real DomainParticipants in one process over loopback UDP with a seeded datagram-loss policy at the UDPSender tap; random creation/deletion scripts; the oracle reads only what the public API returned (status events, take()) and compares it with the script (what was written, when, by whom)",
+   text="Exploration. Random dependency-respecting creation orders of participants (started concurrently on helper threads), topics, publishers/subscribers and 2-6 endpoints with pauses of 0-3.5 s and writes before anybody matched; with_key and no_key; reliable/best-effort readers, Volatile/TransientLocal/unset durability, KeepAll/KeepLast writers; 30 payload sizes on both sides of the fragment limit and of every residue mod 4; loss 0-10 % during discovery and 0-20 % during traffic; late joiner on an existing or a brand-new participant; deletion of a reader, a writer or a participant (both drop orders) followed by traffic among the survivors. Rules: match-within-bound (both sides), complete/ordered/unaltered delivery to reliable readers of keep-all writers (keep-last: the tail), retained history to TransientLocal late joiners, nothing earlier to Volatile readers, unmatch observed by peers.",
+   note="Security-enabled participants are not part of the scenarios (C16/C17/C19 exercise the plugins at their own level); bounds are 40 s of unstalled harness time against typical waits of 2-4 s; partition/heal (lease expiry then rediscovery) is not scripted.", ref="3/C07"),
+ "C17": dict(engine="E-SEC/message-receiver", technique="runtime monitoring: a real MessageReceiver built with a real SecurityPluginsHandle (AccessControlBuiltin state from generated governance XML, CryptographicBuiltin with exchanged tokens) fed with datagrams the harness built itself, so the oracle is a lookup of what protection each injected unit carried; observation = TopicCache contents, DataReader::take and the acknack channel",
+   text="Exploration. All 27 combinations of rtps/metadata/data protection kinds; every submessage kind to protected, unprotected and the three exempt builtin endpoints, with explicit and unknown receiver ids, as plaintext, correctly protected, protected with wrong keys / by an unregistered sender / with another endpoint's keys; wrong SEC_* and SRTPS_* sequencing, foreign INFO_DST/INFO_SRC context. Rules: no-plaintext-to-protected and unprotected-flows (so a receiver that blocks everything fails).",
+   note="Security build; authentication is a stand-in that hands out identity handles and a fabricated shared secret, validate_*_permissions are stand-ins, every get_*_sec_attributes call is the real one; the Writer object behind the acknack channel is not instantiated.", ref="3/C17"),
+})
 NOT_YET = {}
 
 def main():
@@ -113,6 +121,8 @@ def main():
             {"name": "E-CODEC", "path": "/verif/incrate/codec.rs + /verif/harness/vcheck/src/{c_codec,c_qos,qosref}.rs", "serves_properties": ["C10", "C14"], "kind_free_text": "in-crate generators over the implementation's constructors; independent walker and reference tables in the harness"},
             {"name": "E-HOSTILE", "path": "/verif/harness/vcheck/src/{hostile,c_hostile,alloc,shard}.rs", "serves_properties": ["C06"], "kind_free_text": "hostile-datagram driver over ReaderBench+WriterBench in subprocess shards with panic hook, counting allocator, CPU-time probes and watchdog"},
             {"name": "E-STACK/fake-participants", "path": "/verif/incrate/disc.rs + /verif/harness/vcheck/src/{stk,c_stack}.rs", "serves_properties": ["C11", "C12"], "kind_free_text": "real DomainParticipant over loopback UDP against harness-controlled SPDP/SEDP speakers; public API observation; subprocess shards, one domain id each"},
+            {"name": "E-STACK/real-participants", "path": "/verif/harness/vcheck/src/{stk2,c_e2e}.rs + /verif/incrate/net.rs", "serves_properties": ["C07"], "kind_free_text": "2-4 real DomainParticipants in one process and domain, public API only, seeded loss policy at the UDPSender tap; subprocess shards, one domain id each"},
+            {"name": "E-SEC/message-receiver", "path": "/verif/incrate/sec_mr.rs + /verif/harness/vcheck/src/c_mr.rs", "serves_properties": ["C17"], "kind_free_text": "MessageReceiver with real security plugins, five local readers, genuine peer and imposters; datagrams built by the harness"},
             {"name": "E-SEC", "path": "/verif/incrate/sec_*.rs + /verif/harness/vcheck/src/c_{crypto,access,auth}.rs", "serves_properties": ["C16", "C18", "C19"], "kind_free_text": "in-crate drivers of the builtin security plugins (feature security), oracles and independent walkers in the harness"},
             {"name": "E-SCHED", "path": "/verif/incrate/{sched,schedsc}.rs + /verif/harness/vcheck/src/c_sched.rs", "serves_properties": ["C13"], "kind_free_text": "baton scheduler behind verif_yield! (hook H5): real threads, controlled interleavings, uniform-random and PCT schedules"},
             {"name": "E-API", "path": "/verif/harness/vcheck/src/api.rs", "serves_properties": ["C08", "C09"], "kind_free_text": "reference model of DDS sample/view/instance semantics in lock-step with a real DataReader fed through ReaderBench; subprocess shards with CPU-time watchdog for C09"},
